@@ -9,7 +9,7 @@ import proofs
 import minerals_trace as MT
 from props import c01
 
-FILES = ["Model_core.v", "Model_minerals.v", "Proofs_core.v", "Proofs_minerals.v", "Proofs_rhs.v",
+FILES = ["Model_core.v", "Model_minerals.v", "Proofs_core.v", "Proofs_minerals.v", "Proofs_flow.v", "Proofs_rhs.v",
          "Entry_core.v", "Extract_core.v"]
 PROP = "Properties/C06.v"
 
@@ -71,7 +71,9 @@ def run(chk):
         with MT.Recorder() as rec:
             N = 16 if chk.tier == "quick" else 200
             for i in range(N):
-                sc = MT.scenario(rng, regime=int((4, 6, 0, 7, 4)[i % 5]), n=int(rng.integers(2, 12)))
+                # the first scenarios are rigid rotations (zero strain rate, F must still follow dF/dt = L.F)
+                forced = {0: "spin", 1: "shear_then_spin", 2: "stopping"}.get(i)
+                sc = MT.scenario(rng, regime=int((4, 6, 0, 7, 4)[i % 5]), n=int(rng.integers(2, 12)), lkind=forced)
                 F0 = random_F0(rng)
                 h = c01.run_history(rec, sc, F0=F0)
                 c01.validate_traces(chk, h, bad)
